@@ -207,6 +207,24 @@ def rule_tid_sources(ctx, res):
                     if not (t[0] == 'call' and t[1] == 'transaction::MIDGenerator::generate' and find_calls(t, '::lock') and 'id_generator' in str(t)):
                         ok = False
     res.check(ok and n >= 2, 'FLOW', 'action::bootstrap::TableBootstrapInner::make_find_node_request', 'bootstrap queries carry ids of the bootstrap generator', detail=str(n))
+    # the shared first-round id is drawn anew for every bootstrap attempt: the generate() feeding a sending call lies in every
+    # loop that contains that call (an id is never carried around a loop)
+    s.loop_info()
+    okl = True
+    nl = 0
+    for p in s.paths:
+        for e in p.effects:
+            if e[0] == 'call' and e[1] in ('action::bootstrap::TableBootstrapInner::send_to_initial_nodes', 'socket::Socket::send', 'socket::Socket::send_request'):
+                gens = [x for a in e[2] for x in find_calls(a, 'MIDGenerator::generate')]
+                if not gens:
+                    if e[1].endswith('send_to_initial_nodes'):
+                        okl = False   # the message of the shared round does not visibly come from a fresh id
+                    continue
+                nl += 1
+                for comp in s._loop_bodies:
+                    if e[3] in comp and any(g[3] not in comp for g in gens):
+                        okl = False
+    res.check(okl and nl >= 1, 'FLOW', b.path, 'every bootstrap attempt draws a fresh id for its shared first round (the id is generated inside the attempt loop that sends it)', key='fresh-per-attempt')
 
 
 def run(ctx, res):
